@@ -437,6 +437,66 @@ theorem C14_modhash_order_dependent :
     (ModHash.run build (ModHash.new false) [.refresh [e 1, e 2, e 3], .remove (e 2), .add (e 2), .refresh [e 1, e 2, e 3]]).select 1 = .ep (e 2) := by
   decide
 
+/-! ## The hash code in the call context survives the other per-call options -/
+
+/-- whatever sequence of per-call options is applied to a client context — `SetClientHash`,
+    `SetClientTimeout`, `SetServerIPWithContext`, `SetServerPortWithContext`, in any order, any
+    number of times — `GetClientHash` reports the LAST hash that was set (and `isHash = true`), or,
+    if none was set, what the context held before; likewise for the timeout.  In particular a hash
+    set before a timeout is still there. -/
+theorem C14_hash_survives_other_options (cc : ClientCurrent) (ops : List CtxOp) :
+    getClientHash (applyCtxOps (some cc) ops) =
+      (match lastHash ops with
+       | some (t, c) => (true, t, c, true)
+       | none => (true, cc.hashType, cc.hashCode, cc.isHash)) ∧
+    getClientTimeout (applyCtxOps (some cc) ops) =
+      (match lastTimeout ops with
+       | some ms => (true, ms, true)
+       | none => (true, cc.timeout, cc.isTimeout)) := by
+  induction ops generalizing cc with
+  | nil => simp [applyCtxOps, lastHash, lastTimeout, getClientHash, getClientTimeout]
+  | cons op ops ih =>
+    cases op with
+    | hash t c =>
+      have := ih { cc with isHash := true, hashType := t, hashCode := c }
+      simp only [applyCtxOps, List.foldl_cons, applyCtxOp, setClientHash, lastHash, lastTimeout] at this ⊢
+      refine ⟨?_, ?_⟩
+      · rw [this.1]; cases lastHash ops <;> rfl
+      · rw [this.2]; cases lastTimeout ops <;> rfl
+    | timeout ms =>
+      have := ih { cc with isTimeout := true, timeout := ms }
+      simp only [applyCtxOps, List.foldl_cons, applyCtxOp, setClientTimeout, lastHash, lastTimeout] at this ⊢
+      refine ⟨?_, ?_⟩
+      · rw [this.1]; cases lastHash ops <;> rfl
+      · rw [this.2]; cases lastTimeout ops <;> rfl
+    | serverIP ip =>
+      have := ih { cc with serverIP := ip }
+      simp only [applyCtxOps, List.foldl_cons, applyCtxOp, setServerIP, lastHash, lastTimeout] at this ⊢
+      refine ⟨?_, ?_⟩
+      · rw [this.1]; cases lastHash ops <;> rfl
+      · rw [this.2]; cases lastTimeout ops <;> rfl
+    | serverPort p =>
+      have := ih { cc with serverPort := p }
+      simp only [applyCtxOps, List.foldl_cons, applyCtxOp, setServerPort, lastHash, lastTimeout] at this ⊢
+      refine ⟨?_, ?_⟩
+      · rw [this.1]; cases lastHash ops <;> rfl
+      · rw [this.2]; cases lastTimeout ops <;> rfl
+
+/-- hence a call whose context was given a hash and, afterwards, any other options is routed by
+    that hash (decision of `SelectAdapterProxy` on the message `TarsInvoke` builds) -/
+theorem C14_ctx_routing_after_other_options (ops : List CtxOp) (t : Int) (c : Nat) (h : lastHash ops = some (t, c)) :
+    msgOfCtx (applyCtxOps (some newClientCurrent) ops) = ⟨true, t, c⟩ := by
+  have := (C14_hash_survives_other_options newClientCurrent ops).1
+  rw [h] at this
+  simp only [msgOfCtx, this]
+  rfl
+
+/-- the extractor found every setter of clientcurrent.go writing only fields of its own (no
+    whole-struct assignment; a field shared by several setters is only ever written with `|=` / `&^=`) -/
+theorem C14_ctx_setters_anchor : Consts.conHashCtxSettersDisjoint = 1 := by decide
+
+example : lastHash [.hash 1 77, .timeout 3000, .serverIP "x"] = some (1, 77) := by decide
+
 /-! ## Weight type in force -/
 
 /-- helper-free statement of the loop: it ends `true` iff it started `true` and every element equals `lastType` -/
